@@ -285,8 +285,10 @@ def gen_rses_group(ctx, rng, gid, size=None):
     src0 = rnd_dir(rng)
     for _ in range(n):
         (sra, sdec) = src0 if gkind == 'one-source' else rnd_dir(rng)
-        if abs(sdec) != HALFPI and HALFPI - abs(sdec) < 1e-5:
-            sdec = math.copysign(HALFPI - 1e-5, sdec)          # 0 < cos(dec) < 1e-12 is astropy's approximate pole branch
+        if rng.random() < 0.12:
+            # sources at / next to the poles: exact float pole (astropy's pole branch), inside the approximate branch
+            # 0 < cos < 1e-12, and just outside it
+            sdec = rng.choice([1, -1]) * (HALFPI - rng.choice([0.0, 0.0, 1e-14, 1e-13, 1e-11, 1e-9, 1e-7, 1e-5]))
         k = gkind
         if gkind in ('mixed', 'single', 'one-source'):
             k = rng.choice(['generic', 'generic', 'near-1e-5', 'near-1e-7', 'near-1e-9', 'identical', 'antipodal', 'true-at-pole'])
@@ -365,6 +367,14 @@ def corpus_cases():
         out.append({'f': 'rses', 'kind': 'corpus-all-near', 'group': -1, 'src_ra': 1.0, 'src_dec': 0.5,
                     'true_ra': 1.0 + 1e-5 * (i + 1), 'true_dec': 0.5 - 2e-6 * (i + 1), 'reco_ra': 1.0 + 1e-3 * (i + 1),
                     'reco_dec': 0.5 + 7e-4 * (i - 1.5)})
+    # sources at and next to both poles, reco 0.3 rad from true (audit G/M2: flipped or clipped pole sources)
+    g = -200
+    for sgn in (1, -1):
+        for off in (0.0, 1e-14, 1e-11, 1e-7, 1e-6, 1e-3):
+            for (tra, tdec, dra, ddec) in ((0.4, 0.2, 0.3, 0.1), (2.0, -0.7, -0.2, 0.25), (5.0, 1.1, 0.1, -0.3)):
+                out.append({'f': 'rses', 'kind': 'corpus-pole-source', 'group': g, 'src_ra': 1.3, 'src_dec': sgn * (HALFPI - off),
+                            'true_ra': tra, 'true_dec': tdec, 'reco_ra': tra + dra, 'reco_dec': tdec + ddec})
+            g -= 1
     # open finding: destination exactly at the pole -> astropy takes arcsin(1 + ulp) = NaN
     for (a, b) in ((5.792200979058819, -0.3433245192852074), (0.17346625885636222, -0.32503212338975546),
                    (1.7491562850383493, -0.12057143314450967)):
@@ -398,8 +408,8 @@ class StubRSS:
 
         def uniform(self, lo, hi, size=None):
             self.calls.append((float(lo), float(hi), size))
-            assert size == len(self.ts)
-            return np.array(self.ts, dtype=np.float64)
+            n = len(self.ts) if size is None else int(np.prod(size))
+            return np.resize(np.array(self.ts, dtype=np.float64), n)
 
     def __init__(self, ts):
         self.random = StubRSS._R(ts)
@@ -495,11 +505,30 @@ def run_rot(ctx, cases, lines, checks):
     with np.errstate(all='ignore'):
         (ra, dec) = rotate_spherical_vector(arr(cases, 'ra1'), arr(cases, 'dec1'), arr(cases, 'ra2'), arr(cases, 'dec2'),
                                             arr(cases, 'ra3'), arr(cases, 'dec3'))
+    (era, edec) = rodrigues_vector_form(*(arr(cases, k) for k in ('ra1', 'dec1', 'ra2', 'dec2', 'ra3', 'dec3')))
     for i, c in enumerate(cases):
         c['impl'] = [float(ra[i]), float(dec[i])]
         lines.append(hexline('rot', c['ra1'], c['dec1'], c['ra2'], c['dec2'], c['ra3'], c['dec3']))
         checks.append(c)
-        pred_rot(ctx, c, float(ra[i]), float(dec[i]))
+        pred_rot(ctx, c, float(ra[i]), float(dec[i]), float(era[i]), float(edec[i]))
+
+
+def rodrigues_vector_form(ra1, d1, ra2, d2, ra3, d3):
+    """c v3 + (1-c)(n.v3) n + s (n x v3) with the axis n = normalised cross(v1, v2) as doubles give it (normalised
+    whenever its norm is > 0, as the code does).  Vector form, no matrix / roll / outer plumbing: the reference for what
+    the documented algorithm returns where the axis is rounding noise (antipodal pairs) or the angle is ~0."""
+    with np.errstate(all='ignore'):
+        def vec(ra, d):
+            return np.stack([np.cos(ra) * np.cos(d), np.sin(ra) * np.cos(d), np.sin(d)], axis=1)
+        v1, v2, v3 = vec(ra1, d1), vec(ra2, d2), vec(ra3, d3)
+        ca = np.clip(np.cos(ra2 - ra1) * np.cos(d1) * np.cos(d2) + np.sin(d1) * np.sin(d2), -1.0, 1.0)
+        sa = np.sin(np.arccos(ca))
+        n = np.cross(v1, v2)
+        norm = np.sqrt(np.sum(n ** 2, axis=1))
+        m = norm > 0
+        n[m] = n[m] / norm[m][:, None]
+        w = ca[:, None] * v3 + ((1.0 - ca) * np.sum(n * v3, axis=1))[:, None] * n + sa[:, None] * np.cross(n, v3)
+        return np.mod(np.arctan2(w[:, 1], w[:, 0]), TWOPI), np.arcsin(np.clip(w[:, 2], -1.0, 1.0))
 
 
 def axis_norm(c):
@@ -507,7 +536,7 @@ def axis_norm(c):
     return abs(math.sin(vincenty(c['ra1'], c['dec1'], c['ra2'], c['dec2'])))
 
 
-def pred_rot(ctx, c, ra, dec):
+def pred_rot(ctx, c, ra, dec, exp_ra=None, exp_dec=None):
     ins = (c['ra1'], c['dec1'], c['ra2'], c['dec2'], c['ra3'], c['dec3'])
     if not finite(*ins):
         return
@@ -529,17 +558,33 @@ def pred_rot(ctx, c, ra, dec):
     # the result is returned through asin(z): direction error up to sqrt(eps)-ish next to the poles
     tol = 64 * EPS * cond + 64 * EPS / max(math.cos(dec), 3e-8) + 32 * EPS * (abs(c['ra1']) + abs(c['ra2']) + abs(c['ra3']))
     c['cond'] = cond
+    c['ang12'] = ang12
     if cond > 1e7:
-        if ang12 > 3.0:
-            # (numerically) antipodal true/source pair: |v1 x v2| is rounding noise but > 0, the normalised axis is
-            # arbitrary (over the reals the axis is 0 and the matrix is -1: theorem C19_rotation_preserves_separation)
+        # |v1 x v2| < 1e-7.  The separation predicate cannot be applied with a meaningful tolerance, but the result is
+        # still determined: it must be the Rodrigues rotation of reco about the axis the doubles give (audit G/2g, M4).
+        if exp_ra is None or not finite(exp_ra, exp_dec):
+            (era, edec) = rodrigues_vector_form(*(np.array([c[k]]) for k in ('ra1', 'dec1', 'ra2', 'dec2', 'ra3', 'dec3')))
+            exp_ra, exp_dec = float(era[0]), float(edec[0])
+        dev = vincenty(ra, dec, exp_ra, exp_dec)
+        if not dev <= 1e-9 + 64 * EPS / max(math.cos(dec), 3e-8):
+            ctx.violation(site, 'not-the-rodrigues-rotation-about-the-computed-axis',
+                          f'result differs by {dev:.3g} rad from c v + (1-c)(n.v) n + s (n x v)', case=c, impl=[ra, dec],
+                          model=[exp_ra, exp_dec], predicate='result = Rodrigues rotation of reco about normalised cross(true, source)')
+        elif ang12 > PI - 2e-7:
+            # v1.v2 < 0: (numerically) antipodal true/source pair, the normalised axis is rounding noise (over the reals
+            # the axis is 0 and the matrix is -1: theorem C19_rotation_preserves_separation) - the known finding
             ctx.count('rot:antipodal-axis-degenerate')
             if abs(got - want) > 1e-6:
                 ctx.violation(site, 'separation-not-preserved-antipodal-true-source',
                               f'sep(rot(reco),src)={got!r} sep(reco,true)={want!r}', case=c, impl=[ra, dec], model=want,
                               predicate='sep(R reco, source) == sep(reco, true)')
         else:
-            ctx.count('rot:ill-conditioned-skipped')
+            # nearly identical true/source: the rotation angle is < 2e-7, so nothing can move by more than that
+            ctx.count('rot:near-identity-zone')
+            if abs(got - want) > 2.5 * ang12 + 64 * EPS / max(math.cos(dec), 3e-8) + 1e-15:
+                ctx.violation(site, 'separation-not-preserved', f'sep(rot(reco),src)={got!r} sep(reco,true)={want!r} '
+                              f'(true-source angle {ang12:.3g})', case=c, impl=[ra, dec], model=want,
+                              predicate='sep(R reco, source) == sep(reco, true)')
         return
     if abs(got - want) > tol:
         ctx.violation(site, 'separation-not-preserved', f'sep(rot(reco),src)={got!r} sep(reco,true)={want!r} tol={tol:.3g}',
@@ -580,8 +625,11 @@ def run_rses(ctx, cases, lines, checks):
 
 
 def rses_cond(c, dec_out):
-    """conditioning of the spherical-triangle solution: 1/cos(source dec) (longitude change) and 1/cos(dec_out) (arcsin)"""
-    return 1.0 / max(math.cos(c['src_dec']), 1e-17) + 1.0 / max(math.cos(dec_out), 1e-17)
+    """conditioning of the result: only the final arcsin (1/cos(dec_out), at most 1/sqrt(eps)).  Measured on astropy for
+    sources AT the float poles, 1e-14 .. 1e-3 away from them and anywhere else: |sep error| * cos(dec_out) <= 4e-16 and
+    |direction(model) - direction(astropy)| <= 1.3e-15, so the source declination does NOT enter the tolerance
+    (audit G/M2: a 1/cos(src_dec) term made the tolerance void at pole sources)."""
+    return 1.0 + 1.0 / max(math.cos(dec_out), 3e-8)
 
 
 def rses_expected_z(c):
@@ -646,10 +694,16 @@ def run_a2r(ctx, cases, lines, checks):
         if not (0.0 <= float(hra[i]) < TWOPI):
             ctx.violation('hor_to_equ_transform', 'ra-out-of-range', f'ra={float(hra[i])!r}', case=c, impl=float(hra[i]),
                           predicate='0 <= ra < 2pi')
-        if 0.0 <= c['zen'] <= PI and not (-HALFPI <= float(hdec[i]) <= HALFPI):
-            ctx.violation('hor_to_equ_transform', 'dec-out-of-canonical-range',
-                          f'zen={c["zen"]!r} -> dec={float(hdec[i])!r}', case=c, impl=float(hdec[i]),
-                          predicate='-pi/2 <= dec <= pi/2')
+        hd = float(hdec[i])
+        if 0.0 <= c['zen'] <= PI and not (-HALFPI <= hd <= HALFPI):
+            # the known finding is exactly `dec = pi - zen` (one IEEE subtraction, pinned by the unit test); any other
+            # out-of-range declination is a different defect and is NOT covered by the known-finding signature
+            if hd == PI - c['zen'] and 0.0 <= hd <= PI:
+                ctx.violation('hor_to_equ_transform', 'dec-out-of-canonical-range',
+                              f'zen={c["zen"]!r} -> dec={hd!r}', case=c, impl=hd, predicate='-pi/2 <= dec <= pi/2')
+            else:
+                ctx.violation('hor_to_equ_transform', 'dec-out-of-range-and-not-pi-minus-zen',
+                              f'zen={c["zen"]!r} -> dec={hd!r}', case=c, impl=hd, predicate='-pi/2 <= dec <= pi/2')
 
 
 def run_p2d(ctx, cases, lines, checks):
@@ -660,9 +714,20 @@ def run_p2d(ctx, cases, lines, checks):
         groups.setdefault((c['src_dec'], c['src_ra']) if finite(c['src_dec'], c['src_ra']) else ('nan', id(c)), []).append(c)
     for key, grp in groups.items():
         rss = StubRSS([c['t'] for c in grp])
-        with np.errstate(all='ignore'):
-            (dec, ra) = psi_to_dec_and_ra(rss, grp[0]['src_dec'], grp[0]['src_ra'], arr(grp, 'psi'))
+        try:
+            with np.errstate(all='ignore'):
+                (dec, ra) = psi_to_dec_and_ra(rss, grp[0]['src_dec'], grp[0]['src_ra'], arr(grp, 'psi'))
+            assert np.shape(dec) == np.shape(ra) == (len(grp),), (np.shape(dec), np.shape(ra))
+        except Exception as ex:
+            if all(finite(c['src_dec'], c['src_ra'], c['psi'], c['t']) for c in grp):
+                ctx.violation('psi_to_dec_and_ra', 'raises-' + type(ex).__name__, str(ex)[:200], case=grp[0],
+                              predicate='returns one (dec, ra) per psi value')
+            continue
         (lo, hi, _) = rss.random.calls[0]
+        if rss.random.calls[0][2] not in (len(grp), (len(grp),)):
+            ctx.violation('psi_to_dec_and_ra', 'uniform-size', f'uniform called with size={rss.random.calls[0][2]!r} for {len(grp)} psi values',
+                          case=grp[0], predicate='one draw per psi value')
+            continue
         if (lo, hi) != (0.0, TWOPI) or len(rss.random.calls) != 1:
             ctx.violation('psi_to_dec_and_ra', 'uniform-bounds', f'uniform called with {rss.random.calls}', case=grp[0],
                           impl=[lo, hi], predicate='t ~ U[0, 2pi)')
@@ -740,10 +805,16 @@ def compare(ctx, checks, outs):
                     ctx.disagree('coords.rot', c, imp, m, 'non-finite input handled differently')
                 continue
             cond = c.get('cond', 1.0)
-            if cond > 1e7 or not finite(*m) or not finite(*imp):
+            if not finite(*m) or not finite(*imp):
                 if finite(*m) != finite(*imp):
                     ctx.disagree('coords.rot', c, imp, m, 'finite / non-finite result differs')
-                ctx.count('corr:rot-ill-conditioned')
+                continue
+            if cond > 1e7:
+                ang12 = c.get('ang12', PI)
+                if ang12 > PI - 2e-7:
+                    ctx.count('corr:rot-antipodal-zone')      # different libm -> different noise axis; see pred_rot
+                elif vincenty(imp[0], imp[1], m[0], m[1]) > 4 * ang12 + 128 * EPS / max(math.cos(m[1]), 3e-8) + 1e-14:
+                    ctx.disagree('coords.rot', c, imp, m, 'directions differ in the near-identity zone')
                 continue
             # compare as directions: dec through asin (ill-conditioned at the poles), ra through atan2
             d = vincenty(imp[0], imp[1], m[0], m[1])
